@@ -410,6 +410,64 @@ func runEngVariant(prop string) runner {
 					}
 				}
 			}
+			// grid of the string built-ins: receiver x function x argument
+			type scall struct {
+				f    string
+				args []*Expr
+			}
+			var calls []scall
+			for _, a := range []string{"", "a", "l", "lo", "ll", "Hello", " "} {
+				for _, f := range []string{"Index", "LastIndex", "Count", "Compare", "Contains", "HasPrefix", "HasSuffix"} {
+					calls = append(calls, scall{f, []*Expr{cStr(a)}})
+				}
+				calls = append(calls, scall{"Replace", []*Expr{cStr(a), cStr("xy")}}, scall{"Replace", []*Expr{cStr(a), cStr("")}},
+					scall{"In", []*Expr{cStr("zz"), cStr(a)}}, scall{"In", []*Expr{cStr(a), cInt(1)}}, scall{"In", []*Expr{cInt(1), cStr(a)}})
+			}
+			calls = append(calls, scall{"Len", nil}, scall{"Trim", nil}, scall{"ToUpper", nil}, scall{"ToLower", nil}, scall{"In", nil},
+				scall{"Repeat", []*Expr{cInt(0)}}, scall{"Repeat", []*Expr{cInt(3)}}, scall{"Repeat", []*Expr{cInt(-1)}},
+				scall{"Index", []*Expr{cInt(1)}}, scall{"Trim", []*Expr{cStr("x")}}, scall{"Replace", []*Expr{cStr("l")}}, scall{"NoSuchFunction", nil})
+			for _, recv := range []string{"", "a", "Hello", "  lo l\t", "llll", "hello Hello"} {
+				for _, c := range calls {
+					if tier != "thorough" && p.intn(3) != 0 {
+						continue
+					}
+					e := method(aVar(vPath("F", "S")), c.f, c.args...)
+					var sink *Var
+					switch c.f {
+					case "Index", "LastIndex", "Count", "Compare", "Len":
+						sink = vPath("F", "I64")
+					case "Contains", "HasPrefix", "HasSuffix", "In":
+						sink = vPath("F", "B")
+					default:
+						sink = vPath("F", "In", "S")
+					}
+					rl := &Rule{Name: "R0", Desc: "cell", Sal: 0, When: cBool(true), Then: []*Stmt{assign(sink, "=", e), call(fn("Retract", cStr("R0")))}}
+					f := grid.clone()
+					f.S = recv
+					f.I64, f.B, f.In.S = -99, false, "unset"
+					s := EngScenario{Rules: []*Rule{rl}, Fact: f, N: 0, MaxCycle: 3, CancelAt: -1, Listeners: 1}
+					obs, err := runEngScenario(s, false)
+					if err != nil {
+						return err
+					}
+					if want := nativeExpr(e, s.Fact, 0); want.k != "none" && obs.Outcome == "nil" {
+						ok := true
+						switch want.k {
+						case "int":
+							ok = obs.Fact.I64 == want.i
+						case "str":
+							ok = obs.Fact.In.S == want.s
+						case "bool":
+							ok = obs.Fact.B == want.b
+						}
+						if !ok {
+							obs.OracleMsg = fmt.Sprintf("C05: %s on F.S=%q gives %s; the documented semantics (Go's strings package) give %+v", e.grl(), recv, obs.Fact.dump(), want)
+						}
+					}
+					rep.count("string built-in " + c.f)
+					emit(s, obs)
+				}
+			}
 		}
 		for i := 0; i < n; i++ {
 			q := p.fork()
